@@ -89,7 +89,60 @@ def jobs(tier):
     # ---- I2CMaster (registers + machine + pad stage): bus writes in every state (busy included), ext lines
     A(lambda: L.I2cMasterInst(1, alphabet=i2cm_alphabet(), tag="/A"), heavy=True, max_states=2000 if quick else 25000)
 
+    # ---- less-used constructor options and the glue around the cores (hardening audit items 2/3), mode A
+    A(lambda: L.mk_watchdog(3, 2, with_halted=False))
+    A(lambda: L.mk_watchdog(3, 1, with_crg=False, values=(0, 1, 2, 5)))
+    A(lambda: L.mk_waittimer(2.7))
+    A(lambda: L.mk_pwm([0, 1, 2, 3], csr=True))
+    A(lambda: L.mk_mcpwm(2))
+    A(lambda: L.mk_uptime(), max_states=300 if quick else 5000)
+    A(lambda: L.UartTopInst(2, 2, alphabet=L.prod((0, 1), (1, 2), (0,), (0, 1), (0, 1), (3, 4), (0, 1))), heavy=True,
+      max_states=150 if quick else 20000)
+    A(lambda: L.UartTopInst(3, 2, rx_we=True, alphabet=L.prod((0, 1), (1,), (0, 1), (0, 1), (0, 1), (3,), (0, 1))),
+      heavy=True, max_states=250 if quick else 20000)
+    A(lambda: L.SpiMasterInst(3, True, spi_alphabet(3, 3, words=(5,), cs=((1, 0), (2, 0), (3, 0), (0, 0), (2, 1))), ncs=2,
+                              tag="/div3"), heavy=True, max_states=1200 if quick else 120000)
+    A(lambda: L.SpiMasterInst(5, False, spi_alphabet(5, 2, lengths=(1, 4, 5), words=(0x15,)), tag="/div2"), heavy=True,
+      max_states=1500 if quick else 60000)
+    A(lambda: L.SpiMasterInst(3, False, spi_alphabet(3, 2, words=(5,)), csr=True, tag="/div2"), heavy=True,
+      max_states=1500 if quick else 120000)
+
     # ---- mode B: realistic sizes
+    for dw, al, div, kw in ((5, True, 3, {}), (6, False, 9, {"ncs": 3}), (7, True, 2, {"csr": True}),
+                            (40, False, 2, {"ncs": 16}), (64, True, 5, {"csr": True, "ncs": 2}), (33, False, 255, {})):
+        B(lambda dw=dw, al=al, div=div, kw=kw: L.SpiMasterInst(dw, al, divs=(div,), tag="/div%d" % div, **kw))
+    B(lambda: L.SpiMasterInst(16, False, csr=True, default_div=(100e6, 30e6)))
+    B(lambda: L.SpiMasterInst(9, True, default_div=(50e6, 12.5e6), ncs=4))
+    B(lambda: L.SpiSlaveInst(5))
+    B(lambda: L.SpiSlaveInst(40))
+    B(lambda: L.mk_watchdog(32, 7, with_halted=False))
+    B(lambda: L.mk_watchdog(9, 4, with_crg=False))
+    B(lambda: L.mk_soc_watchdog(12, 5))
+    B(lambda: L.mk_soc_timer())
+    B(lambda: L.mk_soc_uart(2e6, 250000, 4), cycles=8000 if quick else 80000)
+    B(lambda: L.mk_pwm(wide=True, csr=True))
+    B(lambda: L.mk_mcpwm(3))
+    B(lambda: L.mk_mcpwm(5))
+    B(lambda: L.mk_uptime())
+    B(lambda: L.mk_uart_tx(None, phy=(1e6, 115200)))
+    B(lambda: L.mk_uart_tx(None, phy=(12e6, 921600), dynamic=True))
+    B(lambda: L.UartRxInst(None, phy=(1e6, 115200)))
+    B(lambda: L.UartRxInst(None, (102, 100), phy=(48e6, 1000000)), cycles=12000 if quick else 80000)
+    B(lambda: L.UartTopInst(16, 16), cycles=3000 if quick else 40000)
+    B(lambda: L.UartTopInst(5, 3, rx_we=True), cycles=3000 if quick else 40000)
+    B(lambda: L.UartSysInst(1e6, 115200, 4, 4), cycles=8000 if quick else 80000)
+    B(lambda: L.UartSysInst(2e6, 500000, 16, 2, rx_we=True), cycles=6000 if quick else 80000)
+    for tw in (1, 0xffffffff, 0xfffffffe, 0x80000001):          # extremes of the tuning word range
+        B(lambda tw=tw: L.mk_accum(tw, False))
+        B(lambda tw=tw: L.mk_accum(tw, True))
+    B(lambda: L.mk_uart_tx(0xffffffff))
+    B(lambda: L.mk_uart_tx(0xc0000000))
+    B(lambda: L.I2cInst(4, 15))                                 # divider at the top of its range
+    B(lambda: L.I2cInst(3, 7))
+    B(lambda: L.mk_timeline([0, 63]))
+    B(lambda: L.mk_timeline([5, 6, 127]))
+    B(lambda: L.mk_waittimer(255))
+    B(lambda: L.mk_waittimer(256))
     B(lambda: L.mk_timer(32))
     B(lambda: L.mk_timer(8))
     B(lambda: L.mk_watchdog(32, 20))
